@@ -344,6 +344,48 @@ func init() {
 		}}
 	})
 
+	// ---- sync.Map: an engine map per object (no scheduling points; used by libraries as a cache) ----
+	smap := func(w *World, p Ptr) *Map {
+		key := fmt.Sprintf("syncmap:%p", p)
+		if m, ok := w.userData[key].(*Map); ok {
+			return m
+		}
+		m := newMap(types.NewInterfaceType(nil, nil), types.NewInterfaceType(nil, nil))
+		w.userData[key] = m
+		return m
+	}
+	reg("(*sync.Map).Load", func(w *World, th *Thread, fn *ssa.Function, args []Value) Value {
+		if e := w.mapFind(smap(w, args[0].(Ptr)), args[1]); e != nil {
+			return Tuple{e.v, true}
+		}
+		return Tuple{Iface{}, false}
+	})
+	reg("(*sync.Map).Store", func(w *World, th *Thread, fn *ssa.Function, args []Value) Value {
+		w.mapStore(smap(w, args[0].(Ptr)), args[1], args[2])
+		return nil
+	})
+	reg("(*sync.Map).LoadOrStore", func(w *World, th *Thread, fn *ssa.Function, args []Value) Value {
+		m := smap(w, args[0].(Ptr))
+		if e := w.mapFind(m, args[1]); e != nil {
+			return Tuple{e.v, true}
+		}
+		w.mapStore(m, args[1], args[2])
+		return Tuple{args[2], false}
+	})
+	reg("(*sync.Map).Delete", func(w *World, th *Thread, fn *ssa.Function, args []Value) Value {
+		w.mapDelete(smap(w, args[0].(Ptr)), args[1])
+		return nil
+	})
+	reg("(*sync.Map).Range", func(w *World, th *Thread, fn *ssa.Function, args []Value) Value {
+		m := smap(w, args[0].(Ptr))
+		for _, e := range append([]*mapEntry{}, m.entries...) {
+			if !w.branch(w.callValueSync(args[1], []Value{e.k, e.v})) {
+				break
+			}
+		}
+		return nil
+	})
+
 	// ---- sync/atomic (atomic within an invisible segment; optionally a scheduling point) ----
 	atomicPoint := func(w *World, th *Thread) bool {
 		if !w.eng.cfg.AtomicsVisible {
@@ -827,7 +869,15 @@ func (w *World) formatInt(v Value, ii intInfo) Value {
 		return r
 	}
 	zero := bvLit(0, t.Sort.W)
-	return w.tf.def(sortString, fmt.Sprintf("(ite (bvslt %s %s) (str.++ \"-\" (str.from_int (bv2nat (bvneg %s)))) (str.from_int (bv2nat %s)))", t.S, zero, t.S, t.S))
+	defer func() {
+		// remember the number behind the text (see parseUintTerm / ParseInt)
+	}()
+	r0 := w.tf.def(sortString, fmt.Sprintf("(ite (bvslt %s %s) (str.++ \"-\" (str.from_int (bv2nat (bvneg %s)))) (str.from_int (bv2nat %s)))", t.S, zero, t.S, t.S))
+	if w.fmtOriginS == nil {
+		w.fmtOriginS = map[string]*Term{}
+	}
+	w.fmtOriginS[r0.S] = t
+	return r0
 }
 
 // errorString calls Error() on an error interface value synchronously.
